@@ -13,7 +13,7 @@ use rusty_ulid::Ulid;
 use sozu_lib::pool::{Checkout, Pool};
 use sozu_lib::protocol::http::editor::{HeaderEditMode, HeaderEditSnapshot, HttpContext};
 use sozu_lib::protocol::mux::verif_hdr::{
-    apply_response_header_edits, handle_header, H2BlockConverter, Prioriser,
+    apply_response_header_edits, elide_proxy_owned_trailers, handle_header, H2BlockConverter, Prioriser,
 };
 use sozu_lib::Protocol;
 use verif_harness::*;
@@ -51,7 +51,7 @@ fn new_kawa(pool: &mut Pool, kind: Kind) -> K {
     Kawa::new(kind, kawa::Buffer::new(pool.checkout().expect("checkout")))
 }
 
-fn feed_h1(kawa: &mut K, ctx: &mut HttpContext, raw: &[u8], cuts: &[usize]) {
+fn feed_h1(kawa: &mut K, ctx: &mut HttpContext, raw: &[u8], cuts: &[usize], request: bool) {
     let mut pos = 0;
     let mut cuts: Vec<usize> = cuts.iter().copied().filter(|c| *c > 0 && *c < raw.len()).collect();
     cuts.sort();
@@ -65,6 +65,15 @@ fn feed_h1(kawa: &mut K, ctx: &mut HttpContext, raw: &[u8], cuts: &[usize]) {
         space[..chunk.len()].copy_from_slice(chunk);
         kawa.storage.fill(chunk.len());
         kawa::h1::parse(kawa, ctx);
+        // mux/h1.rs readable(), server position: request trailers are filtered
+        // right after the parser appended them
+        if request
+            && kawa.is_streaming()
+            && matches!(kawa.parsing_phase, ParsingPhase::Trailers | ParsingPhase::Terminated)
+        {
+            let name = ctx.sozu_id_header.clone();
+            elide_proxy_owned_trailers(kawa, name.as_bytes());
+        }
         if kawa.is_error() {
             return;
         }
@@ -464,7 +473,7 @@ fn run(case: &Case, out: &mut Out) {
                         }
                         raw.extend_from_slice(b"\r\n");
                     }
-                    feed_h1(&mut kawa, ctx, &raw, &cuts);
+                    feed_h1(&mut kawa, ctx, &raw, &cuts, request);
                     if kawa.is_error() {
                         rejected = Some("h1-parse-error".into());
                     } else if !(kawa.is_terminated() || (kawa.is_main_phase() && kawa.body_size == kawa::BodySize::Empty && input_body.is_empty())) {
@@ -504,6 +513,10 @@ fn run(case: &Case, out: &mut Out) {
                         let r = handle_header(&mut dec, &mut prio, 1, &mut kawa, &tb_, true, ctx, 65536, 200, cfg.elide);
                         if let Err((e, _)) = r {
                             rejected = Some(format!("h2-trailer-{e:?}"));
+                        } else if request {
+                            // mux/h2.rs handle_headers_frame, server position
+                            let name = ctx.sozu_id_header.clone();
+                            elide_proxy_owned_trailers(&mut kawa, name.as_bytes());
                         }
                     }
                 }
